@@ -212,8 +212,48 @@ def ref_run(m):
     return ref, status, detail
 
 
+# error names of every length around the 256-byte message buffer: the clause with exactly the raised name takes the error, a name that
+# agrees on a long prefix does not; error@1 is the name
+NAME_LENGTHS = [1, 2, 31, 32, 33, 127, 128, 200, 254, 255, 256, 257, 258, 300, 511, 512, 513, 1000]
+
+
+def names_gen(tier):
+    def gen():
+        n = 0
+        for L in NAME_LENGTHS:
+            name = ("k" * L)
+            other = name[:-1] + "f" if L > 1 else "f"
+            longer = name + "x"
+            progs = {
+                "own-clause": 'begin raise %s; exception when %s then print "own " strlen(error@1) " " (error@1 == "%s"); when others then print "others"; end;' % (name, name, name.upper()),
+                "other-name-first": 'begin raise %s; exception when %s then print "wrong"; when %s then print "longer"; when %s then print "own"; when others then print "others"; end;' % (name, other, longer, name),
+                "only-similar": 'begin raise %s; exception when %s then print "wrong"; when %s then print "longer"; when others then print "others " strlen(error@1); end;' % (name, other, longer),
+                "nested": 'begin begin raise %s; exception when %s then print "inner-wrong"; end; exception when %s then print "outer-own"; end;' % (name, other, name),
+                "function": 'function fl() return integer is begin raise %s; return 1; end; begin zz = fl(); exception when %s then print "own"; when others then print "others"; end;' % (name, name),
+            }
+            want = {"own-clause": "own %d TRUE\n" % L, "other-name-first": "own\n", "only-similar": "others %d\n" % L, "nested": "outer-own\n", "function": "own\n"}
+            for tag, prog in progs.items():
+                for route in ("cpp", "capi"):
+                    ops = [op_ctx(), op_run(prog, route=route), op_out()]
+                    yield Case("n%d" % n, ops, {"kind": "names", "tag": tag, "len": L, "want": want[tag], "route": route})
+                    n += 1
+    return gen
+
+
+def check_names(case, res, vs):
+    m = case.meta
+    st = res["steps"]
+    out = unhex(st[2].get("out", "")).decode("latin-1")
+    if st[1].get("r") != "ok" or out != m["want"]:
+        vs.append(Violation("names:%s" % m["tag"], "error name of %d characters (%s, %s): result %s, printed %r, expected %r" % (
+            m["len"], m["tag"], m["route"], {k: v for k, v in st[1].items() if k in ("r", "no")}, out[:80], m["want"]), case))
+    return vs, True
+
+
 def check(case, res):
     vs = generic_safety(case, res)
+    if res.get("st") == "done" and case.meta.get("kind") == "names":
+        return check_names(case, res, vs)
     if res.get("st") != "done":
         return vs, True
     m = case.meta
@@ -286,6 +326,7 @@ def cli_scenarios(tier):
 def run(tier):
     t0 = time.time()
     res = explore(PROP + "-" + tier, gen_factory(tier), check, chunk=150, deadline=t0 + (2400 if tier == "thorough" else 420))
+    res.merge(explore(PROP + "-" + tier + "-names", names_gen(tier), check, chunk=50, deadline=t0 + 600))
     # the interactive statement loop of the bloc command has its own error handling: drive it for real
     from . import c19
     exe, env = c19.exe_env()
